@@ -36,6 +36,22 @@ def _wrap_of(v):
     return None
 
 
+def _alts(k, head, *terms):
+    """alternative triggers for a pointwise definition  head(k) == f(k): besides head(k) itself, every subterm of f of the
+    form Select(A, k) (so that facts about A's k-th element reach the defined array and vice versa)"""
+    out, seen = [head], {head.get_id()}
+    stack = [t for t in terms if is_z3(t)]
+    while stack:
+        e = stack.pop()
+        if z3.is_app(e):
+            if e.decl().kind() == z3.Z3_OP_SELECT and e.num_args() == 2 and e.arg(1).get_id() == k.get_id() and z3.is_const(e.arg(0)) \
+                    and e.get_id() not in seen:
+                seen.add(e.get_id())
+                out.append(e)
+            stack.extend(e.children())
+    return out
+
+
 def elementwise(i, node, fr, gen, exprs):
     """evaluate exprs (list of ast) for the k-th element of gen.iter with k universally quantified.
     returns (L, k, [values], cond term)"""
@@ -79,13 +95,13 @@ def _sym_comprehension(i, node, fr, kind):
         L, k, (val,), cond = r
         t = _term(val)
         allk = ctx.fresh("cmp_vals", z3.ArraySort(Int, t.sort()))
-        ctx.assume(z3.ForAll([k], z3.Implies(z3.And(k >= 0, k < L), z3.Select(allk, k) == t), patterns=[z3.Select(allk, k)]))
+        ctx.assume(z3.ForAll([k], z3.Implies(z3.And(k >= 0, k < L), z3.Select(allk, k) == t), patterns=_alts(k, z3.Select(allk, k), t)))
         wrap = _wrap_of(val)
         if not g.ifs:
             out = SymList(Seq(L, allk), elem_wrap=wrap)
         else:
             M = ctx.fresh("cmp_mask", z3.ArraySort(Int, Bool))
-            ctx.assume(z3.ForAll([k], z3.Implies(z3.And(k >= 0, k < L), z3.Select(M, k) == cond), patterns=[z3.Select(M, k)]))
+            ctx.assume(z3.ForAll([k], z3.Implies(z3.And(k >= 0, k < L), z3.Select(M, k) == cond), patterns=_alts(k, z3.Select(M, k), cond, t)))
             rank_axioms(i, M, L)
             cnt = rank(M, L)
             res = ctx.fresh("cmp_sel", z3.ArraySort(Int, t.sort()))
@@ -147,7 +163,7 @@ def _sorted(i, args, kw, node, fr):
         ctx.scopes.pop()
     et = _term(elem)
     src = ctx.fresh("srt_src", z3.ArraySort(Int, et.sort()))
-    ctx.assume(z3.ForAll([k], z3.Implies(z3.And(k >= 0, k < L), z3.Select(src, k) == et), patterns=[z3.Select(src, k)]))
+    ctx.assume(z3.ForAll([k], z3.Implies(z3.And(k >= 0, k < L), z3.Select(src, k) == et), patterns=_alts(k, z3.Select(src, k), et)))
     out = ctx.fresh("sorted", z3.ArraySort(Int, et.sort()))
     perm = ctx.fresh("srt_perm", z3.ArraySort(Int, Int))
     inv = ctx.fresh("srt_inv", z3.ArraySort(Int, Int))
